@@ -3,6 +3,7 @@ package props
 import (
 	"fmt"
 	"go/token"
+	"go/types"
 	"strings"
 
 	"ndndcheck/core"
@@ -298,19 +299,72 @@ func C18(c *core.Ctx) {
 			}
 		})
 		c.Decide(count["<"] >= 4 && count["=="] >= 2, "R18.4", "deterministic-tie-break", p.Pos(rf.Pos()), fmt.Sprintf("selection uses cost < best, and on cost == best the hop id (comparisons %v)", count), fmt.Sprintf("RibEntry.refresh does not break cost ties by hop id for both best and second best (comparisons found %v): with equal costs the chosen next hop depends on map iteration order", count))
-		// demotion: the phi of lowest2 has an incoming value that is the lowest1 phi
+		// demotion: among the loop-carried values there is a best P (compared `cost < P` and
+		// replaced by that cost) and another carried value Q that receives the old P
 		demote := false
-		core.InstrsDeep(rf, func(in ssa.Instruction) {
-			ph, ok := in.(*ssa.Phi)
-			if !ok || ph.Comment != "lowest2" {
-				return
+		var hdrPhis []*ssa.Phi
+		core.Instrs(rf, func(in ssa.Instruction) {
+			if ph, ok := in.(*ssa.Phi); ok && loopHeader(ph.Block()) == ph.Block() {
+				hdrPhis = append(hdrPhis, ph)
 			}
-			for _, e := range ph.Edges {
-				if p2, ok := core.Strip(e).(*ssa.Phi); ok && p2.Comment == "lowest1" {
+		})
+		flowsFrom := func(q *ssa.Phi, src ssa.Value) bool {
+			seen := map[ssa.Value]bool{}
+			var walk func(v ssa.Value) bool
+			walk = func(v ssa.Value) bool {
+				v = core.Strip(v)
+				if v == src {
+					return true
+				}
+				ph, ok := v.(*ssa.Phi)
+				if !ok || seen[v] || ph == q {
+					return false
+				}
+				seen[v] = true
+				for _, e := range ph.Edges {
+					if walk(e) {
+						return true
+					}
+				}
+				return false
+			}
+			for _, e := range q.Edges {
+				if walk(e) {
+					return true
+				}
+			}
+			return false
+		}
+		isBest := func(pp *ssa.Phi) bool {
+			// some comparison `v < pp` whose v also flows into pp
+			for _, r := range core.Refs(pp) {
+				b, ok := r.(*ssa.BinOp)
+				if !ok || (b.Op != token.LSS && b.Op != token.GTR) {
+					continue
+				}
+				v := b.X
+				if b.X == ssa.Value(pp) {
+					v = b.Y
+				}
+				if _, isPhi := core.Strip(v).(*ssa.Phi); isPhi {
+					continue
+				}
+				if flowsFrom(pp, core.Strip(v)) {
+					return true
+				}
+			}
+			return false
+		}
+		for _, pp := range hdrPhis {
+			if !isBest(pp) {
+				continue
+			}
+			for _, q := range hdrPhis {
+				if q != pp && q.Block() == pp.Block() && types.Identical(q.Type(), pp.Type()) && flowsFrom(q, pp) && isBest(q) {
 					demote = true
 				}
 			}
-		})
+		}
 		c.Decide(demote, "R18.4", "previous-best-becomes-second", p.Pos(rf.Pos()), "when a new best is found the previous best becomes second best", "RibEntry.refresh loses the previous best when a better next hop is found (second-best cost/poison-reverse information is wrong)")
 	}
 	// ---- R18.5 every change of an entry's cost column is followed by refresh() of that
